@@ -358,7 +358,7 @@ pub fn run(ctx: &Ctx) -> Report {
     // ---------------- model
     if !s.include_sim {
       let ans = model.ask(&format!("C12 command {}", s.extra_urls.iter().map(|_| "s").collect::<Vec<_>>().join(";")));
-      if ans != format!("ok {} .", o.code.unwrap_or(-1)) {
+      if ans != format!("ok {} . {}", o.code.unwrap_or(-1), if s.extra_urls.is_empty() { ".".to_string() } else { "s".repeat(s.extra_urls.len()) }) {
         report.fail("model", "C12.exchange", case, format!("exit {:?}, model `{ans}`", o.code));
       }
       continue;
@@ -427,13 +427,14 @@ pub fn run(ctx: &Ctx) -> Report {
     }
   }
   report.model_requests = model.requests;
-  several_trackers(ctx, &mut report);
+  several_trackers(ctx, &mut report, &mut model);
+  report.model_requests = model.requests;
   report
 }
 
 /// A torrent with two UDP trackers: what one of them does must not hide what the other did. Each tracker whose reply is not
 /// acceptable is reported on standard error, whether or not the other one returned peers, and the peers of the good one are printed.
-fn several_trackers(ctx: &Ctx, report: &mut Report) {
+fn several_trackers(ctx: &Ctx, report: &mut Report, model: &mut Model) {
   let want: Option<Vec<String>> = super::replay_cases(ctx).map(|rc| rc.iter().filter_map(|v| v.get("pair").and_then(|l| l.as_str()).map(|l| l.to_string())).collect());
   let good_peers: Vec<u8> = vec![10, 1, 2, 3, 0x1a, 0xe1, 10, 1, 2, 4, 0x1a, 0xe2];
   let bads: Vec<(&str, Resp)> = vec![
@@ -483,6 +484,15 @@ fn several_trackers(ctx: &Ctx, report: &mut Report) {
       report.fail("property", "printed-peers-differ-from-accepted-reply", case, format!("printed {printed:?}, the one acceptable reply holds {expect:?}"));
     } else if reports < failing {
       report.fail("property", "failure-not-reported", case, format!("{failing} tracker(s) sent an unacceptable announce reply, standard error reports {reports}: {err:?}"));
+    } else {
+      // the command model: exit status, printed set and one note per failing tracker
+      let outs: Vec<String> = label.split('+').map(|p| if p == "good" { format!("p:{},{}", hex(&good_peers[..6]), hex(&good_peers[6..])) } else { "f".to_string() }).collect();
+      let ans = model.ask(&format!("C12 command {}", outs.join(";")));
+      let peers_hex = if failing == 1 { format!("{},{}", hex(&good_peers[..6]), hex(&good_peers[6..])) } else { ".".to_string() };
+      let want = format!("ok {} {} {}", out.code.unwrap_or(-1), peers_hex, "f".repeat(reports));
+      if ans != want {
+        report.fail("model", "C12.exchange", case, format!("command model `{ans}`, observed `{want}` (exit, printed peers in reply order, one f per failure line on standard error)"));
+      }
     }
   }
 }
